@@ -585,7 +585,7 @@ class RunS(Unit):
     previous one's result, the supervisor's inputs are updated last, step + 1"""
     name = "_run_S"
     target = PR + "::make_run_partition_excl_supervisor"
-    props = ("C07", "C09", "C13", "C01")
+    props = ("C07", "C09", "C13", "C01", "C08")      # C08: the ring-buffer lemma needs every generation's writes to happen in generation order, before the later generations' reads
 
     def configs(self):
         yield "no record", dict(record=False)
